@@ -215,7 +215,7 @@ REGISTRY = {
                     "prefixed, non-injective) x tag name (incl. names colliding with member fields) x default (none, a member, a class outside) x "
                     "forbid_extra_keys x converter class x validation mode; per configuration every member instance, a subclass instance, and payload "
                     "variants (tagged, tag first, tag missing, unknown tag, extra key); every case non-trivial; distinct = (configuration, instance)"},
-    "C12": {"props_file": "Props/C12.v", "files": ["Model/Base.v", "Model/Disambig.v", "Gen/DisSrc.v", "Proofs/DisambigProofs.v", "Props/C12.v"],
+    "C12": {"props_file": "Props/C12.v", "files": ["Model/Base.v", "Model/Disambig.v", "Model/DisambigSrc.v", "Gen/DisSrc.v", "Proofs/DisambigProofs.v", "Props/C12.v"],
             "run": _c12, "t1_sections": ["disambig"],
             "rule": "unions of 2-5 generated attrs classes / dataclasses with 1-4 attributes drawn from 7 names (overlapping), each required or defaulted, "
                     "12% init=False, 20% Literal-typed, 30% of unions with a shared Literal `kind` attribute, 15% with None; every rotation plus two "
